@@ -31,6 +31,8 @@ func nodeKind(name string) string {
 		return "union"
 	case strings.HasPrefix(name, "kapacitor_loopback"):
 		return "loop"
+	case strings.HasPrefix(name, "mirror"):
+		return "udf"
 	}
 	return "pass"
 }
@@ -115,6 +117,16 @@ func deliveredAny(m map[string][]int) rt.M {
 	return out
 }
 
+func firstLine(s string) string {
+	if i := strings.IndexByte(s, '\n'); i >= 0 {
+		s = s[:i]
+	}
+	if len(s) > 200 {
+		s = s[:200]
+	}
+	return s
+}
+
 func apiKind(api string) string {
 	if api == "StopTask" || api == "DeleteTask" {
 		return "task"
@@ -126,7 +138,8 @@ func apiKind(api string) string {
 func emit(t *rt.Trace, sc scen, a *attempt, o *outcome, attemptNo int) {
 	tp := a.topo()
 	t.Reset(rt.M{"pipe": sc.Pipe, "topo": tp, "api": sc.Stop, "kind": apiKind(sc.Stop), "stall": sc.Stall, "release": sc.Release,
-		"fail": sc.Fail, "n": sc.N, "racing": sc.Racing, "cap": 1000, "attempt": attemptNo})
+		"fail": sc.Fail, "n": sc.N, "racing": sc.Racing, "cap": 1000, "attempt": attemptNo,
+		"stallKind": a.stallKind, "stallNode": a.stallNode})
 	var first, racing []int
 	for _, s := range o.Accepted {
 		if s <= sc.N {
@@ -136,16 +149,18 @@ func emit(t *rt.Trace, sc scen, a *attempt, o *outcome, attemptNo int) {
 		}
 	}
 	t.Event("Accept", rt.M{"seqs": rangesAny(first)})
-	failedBefore := sc.Fail != "" && sc.Release == "before"
+	injected := sc.Fail != ""
+	failedBefore := injected && sc.Release == "before"
 	if failedBefore {
-		t.Event("NodeFailed", rt.M{})
+		t.Event("NodeFailed", rt.M{"injected": true})
 	}
 	t.Event("StopCall", rt.M{"api": sc.Stop})
 	if sc.Racing > 0 {
 		t.Event("Accept", rt.M{"seqs": rangesAny(racing)})
 	}
 	if o.NodeFailed && !failedBefore {
-		t.Event("NodeFailed", rt.M{})
+		// not injected = the node failed because of the stop itself
+		t.Event("NodeFailed", rt.M{"injected": injected})
 	}
 	refused := 0
 	for _, v := range o.Refused {
@@ -168,6 +183,8 @@ func emit(t *rt.Trace, sc scen, a *attempt, o *outcome, attemptNo int) {
 			leaked = []string{}
 		}
 		t.Event("Census", rt.M{"leaked": strsAny(leaked)})
+	} else if o.Panicked != "" {
+		t.Event("StopPanicked", rt.M{"panic": firstLine(o.Panicked)})
 	} else {
 		t.Event("StopHung", rt.M{"delivered": deliveredAny(at)})
 	}
@@ -175,13 +192,13 @@ func emit(t *rt.Trace, sc scen, a *attempt, o *outcome, attemptNo int) {
 }
 
 type counters struct {
-	attempts, hung, leaks, failed, early int
-	lossy                                int
-	bySig                                map[string]int
+	attempts, hung, leaks, failed, early, panicked int
+	lossy                                          int
+	bySig                                          map[string]int
 }
 
 func lost(sc scen, a *attempt, o *outcome) bool {
-	if !a.spec.Counted || o.NodeFailed {
+	if !a.spec.Counted || (o.NodeFailed && sc.Fail != "") {
 		return false
 	}
 	for _, os := range a.spec.Outs {
@@ -224,6 +241,9 @@ func Run(r *rt.Run) error {
 		if sc.Pipe == "loopback" && strings.HasPrefix(sc.Stall, "run:") && sc.N > 1000 && apiKind(sc.Stop) == "task" {
 			n = 1 // the known deadlock: costs a few seconds per attempt and leaves a dead TaskMaster behind
 		}
+		if sc.Pipe == "udf" && sc.Stall == "run:mirror" {
+			n = 1 // the known nil dereference
+		}
 		for i := 0; i < n; i++ {
 			ta := time.Now()
 			o, a, err := runAttempt(sc, post, stdDeadlines)
@@ -237,6 +257,9 @@ func Run(r *rt.Run) error {
 			cnt.attempts++
 			if o.Hung {
 				cnt.hung++
+			}
+			if o.Panicked != "" {
+				cnt.panicked++
 			}
 			if len(o.Leaked) > 0 {
 				cnt.leaks++
@@ -273,6 +296,7 @@ func Run(r *rt.Run) error {
 	r.Extra["attempts_per_scenario"] = attempts
 	r.Extra["attempts"] = cnt.attempts
 	r.Extra["attempts_hung"] = cnt.hung
+	r.Extra["attempts_stop_panicked"] = cnt.panicked
 	r.Extra["attempts_with_leak"] = cnt.leaks
 	r.Extra["attempts_with_loss"] = cnt.lossy
 	r.Extra["attempts_with_node_failure"] = cnt.failed
